@@ -9,6 +9,8 @@
      action kind 0 : L[A 0;A t] drain   L[A 1] pause   L[A 2] resume   L[A 3;A e] connection_lost(e)   L[A 4;A b] is_closing:=b
             kind>0 : L[A 0;A t;A n;A k] send n bytes, kernel takes k at once     L[A 1;A k] socket writable, kernel takes k
                      (datagram kinds: k datagrams)   L[A 3;A e] transport dies (connection_lost(e) follows)   L[A 4] close()
+                     L[A 8] create a task running the adapter's aclose() (= transport.close() + wait for connection_lost,
+                     shielded)   L[A 9] cancel that task (no effect on the senders: the wait is shielded)
             both   : L[A 5;A t] task.cancel()   L[A 6] one loop iteration   L[A 7] run until idle
    output = L snapshots, one per action 6/7: L [A buffer_size; A deque_length; A write_paused; L statuses]
      status 0 never ran, 1 pending, 10 returned, 11 CancelledError, 12 the connection's exception, 13 OSError(errno)
@@ -17,7 +19,7 @@
    bare yield reschedules the task; a dead transport schedules connection_lost.                                      *)
 From EN Require Import Lib.Bytes Lib.Sx Conc.FlowControl.
 
-Inductive entry := EStart (t : tid) | EWake (t : tid) | ECb (f : fid) | ELost (e : bool).
+Inductive entry := EStart (t : tid) | EWake (t : tid) | ECb (f : fid) | ELost (e : bool) | EAclose.
 
 Record rs := mkRs {
   r_kind : Z;
@@ -87,6 +89,14 @@ Definition send_label (kind : Z) (t : tid) (n k : nat) : alabel :=
   | _ => ASendTo t n (0 <? k)
   end.
 
+Definition close_now (r : rs) : rs :=
+  if w_closing (a_w (r_a r)) then r
+  else apply_label AClose (fun a' => if a_dead a' then [ELost false] else []) r.
+
+(* the aclose() task: slot n (= number of sender tasks) of r_pend / r_cs: Some (0,0) created, Some (1,1) has run;
+   r_cs: cancelled before its first step *)
+Definition closer_slot (r : rs) : nat := pred (length (r_pend r)).
+
 Definition proc1 (r : rs) : rs :=
   match r_ready r with
   | [] => r
@@ -117,6 +127,10 @@ Definition proc1 (r : rs) : rs :=
           | Some _ => apply_label (ALost e) (fun _ => []) r0
           | None => r0
           end
+      | EAclose =>
+          let c := closer_slot r0 in
+          let r1 := mkRs (r_kind r0) (r_a r0) (r_ready r0) (upd c (Some (1, 1)) (r_pend r0)) (r_cs r0) (r_res r0) (r_bad r0) in
+          if nth c (r_cs r0) false then r1 else close_now r1
       end
   end.
 
@@ -163,9 +177,21 @@ Definition act_ready (k : nat) (r : rs) : rs :=
 Definition act_kill (e : bool) (r : rs) : rs :=
   if a_dead (r_a r) then r else apply_label AKill (fun _ => [ELost e]) r.
 
-Definition act_close (r : rs) : rs :=
-  if w_closing (a_w (r_a r)) then r
-  else apply_label AClose (fun a' => if a_dead a' then [ELost false] else []) r.
+Definition act_close (r : rs) : rs := close_now r.
+
+Definition act_aclose (r : rs) : rs :=
+  let c := closer_slot r in
+  match nth c (r_pend r) None with
+  | None => mkRs (r_kind r) (r_a r) (r_ready r ++ [EAclose]) (upd c (Some (0, 0)) (r_pend r)) (r_cs r) (r_res r) (r_bad r)
+  | Some _ => r
+  end.
+
+Definition act_cancel_aclose (r : rs) : rs :=
+  let c := closer_slot r in
+  match nth c (r_pend r) None with
+  | Some (0, 0) => mkRs (r_kind r) (r_a r) (r_ready r) (r_pend r) (upd c true (r_cs r)) (r_res r) (r_bad r)
+  | _ => r
+  end.
 
 Definition status (t : nat) (r : rs) : Z :=
   if task_idle t r then nth t (r_res r) 0%Z else 1%Z.
@@ -191,6 +217,8 @@ Fixpoint replay (fuel n : nat) (acts : list sx) (r : rs) (snaps : list sx) : rs 
       | L [A 4%Z; A b] => replay fuel n acts' (apply_w (wfc_closing (Z.eqb b 1)) r) snaps
       | L [A 4%Z] => replay fuel n acts' (act_close r) snaps
       | L [A 5%Z; A t] => replay fuel n acts' (act_cancel (Z.to_nat t) r) snaps
+      | L [A 8%Z] => replay fuel n acts' (act_aclose r) snaps
+      | L [A 9%Z] => replay fuel n acts' (act_cancel_aclose r) snaps
       | L [A 6%Z] => let r' := proc_n (length (r_ready r)) r in replay fuel n acts' r' (snapshot n r' :: snaps)
       | L [A 7%Z] => let r' := settle fuel r in replay fuel n acts' r' (snapshot n r' :: snaps)
       | _ => (set_bad r, rev snaps)
@@ -205,7 +233,7 @@ Definition run (i : sx) : sx :=
                | L [A h; A l; A wl] => mkCfg (Z.to_nat h) (Z.to_nat l) (Z.eqb wl 1)
                | _ => mkCfg 0 0 true
                end in
-      let r0 := mkRs kind (ad_init c n) [] (repeat None n) (repeat false n) (repeat 0%Z n) false in
+      let r0 := mkRs kind (ad_init c n) [] (repeat None (S n)) (repeat false (S n)) (repeat 0%Z n) false in
       let '(r, snaps) := replay (8 + 4 * length acts) n acts r0 [] in
       if r_bad r then bad_input else L snaps
   | _ => bad_input
